@@ -531,6 +531,41 @@ func checkTraversals(k *K, root *newick.Node, deep bool) {
 			}
 		}
 		k.Count("iterator_values_ranged_twice", 2)
+		// two runs of one iterator value in progress at once (nested ranges)
+		if len(wantPre) <= 300 {
+			for _, tr := range []struct {
+				name string
+				seq  iter.Seq[*newick.Node]
+				want []*newick.Node
+			}{{"PreOrder", root.PreOrder(), wantPre}, {"PostOrder", root.PostOrder(), wantPost}} {
+				for range tr.seq { // one completed run first
+				}
+				var outer []*newick.Node
+				innerAt := len(tr.want) / 2
+				okInner := true
+				for n := range tr.seq {
+					outer = append(outer, n)
+					if len(outer) == innerAt+1 {
+						var inner []*newick.Node
+						for m := range tr.seq {
+							inner = append(inner, m)
+							if len(inner) > len(tr.want)+1 {
+								break
+							}
+						}
+						okInner = samePtrs(inner, tr.want)
+					}
+					if len(outer) > len(tr.want)+1 {
+						break
+					}
+				}
+				if !okInner || !samePtrs(outer, tr.want) {
+					k.Failf("traversal-nested", "nested ranges over one %s iterator value: outer run yields %d nodes, inner run correct=%v, the reference order has %d nodes", tr.name, len(outer), okInner, len(tr.want))
+					return
+				}
+			}
+			k.Count("nested_ranges", 2)
+		}
 	}
 	k.Count("trees_traversed", 1)
 }
